@@ -52,6 +52,7 @@ type MSess struct {
 	BufTaint bool
 	Orphans  map[uint16]bool
 	Stale    map[uint16]int // packets queued for a PDR id whose PDR was removed since
+	PDRTaint map[uint16]bool // a packet was queued while stale ones may fill the queue: contents unknown
 }
 
 type MNode struct {
@@ -484,7 +485,7 @@ func (m *Model) onDeliver(ctx *StepCtx) {
 		}
 		x := &MSess{UP: up, CP: in.CPSEID, Node: node, SMF: dg.SMF, Slot: in.Slot, Live: true,
 			Req: map[RuleRef]bool{}, Ever: map[RuleRef]bool{}, Intent: map[RuleRef]*RuleIntent{},
-			PDR: map[uint16]*MPDR{}, URR: map[uint32]*MURR{}, URRInc: map[uint32]int{}, Buf: map[uint16][]uint64{}, Dropped: map[uint16]int{}, BornAt: s.stepNo, Orphans: map[uint16]bool{}, Stale: map[uint16]int{}}
+			PDR: map[uint16]*MPDR{}, URR: map[uint32]*MURR{}, URRInc: map[uint32]int{}, Buf: map[uint16][]uint64{}, Dropped: map[uint16]int{}, BornAt: s.stepNo, Orphans: map[uint16]bool{}, Stale: map[uint16]int{}, PDRTaint: map[uint16]bool{}}
 		ctx.Target = x
 		if up == 0 {
 			return // oracle C04/C08 reports it
@@ -869,6 +870,9 @@ func (m *Model) noteReportForwarded(sr report.SessReport) {
 			x.Stale[p.pdr]++
 			p.state = "nopdr"
 		default:
+			if x.Stale[p.pdr] > 0 {
+				x.PDRTaint[p.pdr] = true // leftovers may already fill the queue
+			}
 			x.Buf[p.pdr] = append(x.Buf[p.pdr], p.tag)
 			p.state = "queued"
 		}
